@@ -300,6 +300,12 @@ func calcBoxSubTxHashSet(subTxList Transactions) []common.Hash {
 	// 计算子交易的交易hash集合
 	subTxHashSet := make([]common.Hash, 0, len(subTxList))
 	for _, subTx := range subTxList {
+		if subTx == nil {
+			// a JSON null in the payload decodes to a nil sub transaction; the box is refused by VerifyTxBody, but its hash
+			// is taken earlier (transaction root check of a received block)
+			subTxHashSet = append(subTxHashSet, common.Hash{})
+			continue
+		}
 		subTxHashSet = append(subTxHashSet, subTx.Hash())
 	}
 	// 返回子交易的hash集合作为交易的data字段
